@@ -58,12 +58,16 @@ Hypothesis savepoints : c_nosp C = false.   (* the dialector implements save poi
 Variable fault : nat -> bool.
 Let nest := negb (c_nonest C).
 
+(* what a body never changes: the calls that reached database/sql's Tx API, and (without Cancel)
+   the state of the context *)
+Definition s_logd (s : st) : list txcall * bool := (s_txlog s, s_dead s).
+
 Definition Inv (base : stack) (ok : bool) (h : option err) (s : st) (t : tbl) (local : stack)
     (l : list obs) (h' : option err) (s' : st) (t' : tbl) (local' : stack) : Prop :=
   s_tx s' = Some (mkTx t' (local' ++ base)) /\
   spec_list nest l (t, fu (local ++ base)) = (t', fu (local' ++ base)) /\
   gen_ok (s_gen s') (local' ++ base) /\ (s_gen s <= s_gen s')%nat /\ new_names (s_gen s) local local' /\
-  s_db s' = s_db s /\ s_txlog s' = s_txlog s /\
+  s_db s' = s_db s /\ s_logd s' = s_logd s /\
   forallb prop_ok l = true /\ flags_le (s_fl s) (s_fl s') /\
   exists nops, s_ops s' = nops ++ s_ops s /\ forallb body_op nops = true /\
     (h = None ->
@@ -127,48 +131,48 @@ Proof. intros g g' a b H L I k t Hin. specialize (H k t (I _ Hin)). lia. Qed.
 
 (* ---------------------------------------------------------------- statements *)
 Lemma write_step : forall m h s e n s1 t local base,
-  h_stmt fault (Some m) h s = (e, n, s1) ->
+  h_stmt fault (Some m) h s = (e, n, s1) -> s_dead s = false ->
   s_tx s = Some (mkTx t (local ++ base)) -> gen_ok (s_gen s) (local ++ base) ->
   Inv base true h s t local [OW m (cls_oe e)] h s1 (match e with None => t ++ [m] | Some _ => t end) local.
 Proof.
-  intros m h s e n s1 t local base H Htx Hg. unfold h_stmt, issue in H.
+  intros m h s e n s1 t local base H Hdead Htx Hg. unfold h_stmt, issue in H. rewrite Hdead in H.
   destruct h as [e0|].
-  - inversion H; subst. unfold Inv. repeat (split; [first [assumption | reflexivity | lia | apply new_names_refl | apply flags_le_refl]|]).
+  - inversion H; subst. unfold Inv. repeat (split; [first [assumption | reflexivity | lia | apply new_names_refl | apply flags_le_refl | (unfold s_logd; cbn; congruence)]|]).
     exists []. split; [reflexivity|]. split; [reflexivity|]. fin.
   - rewrite Htx in H. destruct (fault (length (s_ops s))) eqn:Ef; inversion H; subst; unfold Inv;
-      cbn [set_tx s_tx s_gen s_db s_txlog s_ops s_fl cls_oe work sps].
-    + repeat (split; [first [assumption | reflexivity | lia | apply new_names_refl | apply flags_le_refl]|]).
+      cbn [set_tx s_tx s_gen s_db s_txlog s_ops s_fl s_dead s_logd cls_oe work sps].
+    + repeat (split; [first [assumption | reflexivity | lia | apply new_names_refl | apply flags_le_refl | (unfold s_logd; cbn; congruence)]|]).
       exists [(KStmt, true)]. split; [reflexivity|]. split; [reflexivity|]. fin.
-    + repeat (split; [first [assumption | reflexivity | lia | apply new_names_refl | apply flags_le_refl]|]).
+    + repeat (split; [first [assumption | reflexivity | lia | apply new_names_refl | apply flags_le_refl | (unfold s_logd; cbn; congruence)]|]).
       exists [(KStmt, false)]. split; [reflexivity|]. split; [reflexivity|]. fin.
 Qed.
 
 Lemma read_step : forall h s e n s1 t local base,
-  h_stmt fault None h s = (e, n, s1) ->
+  h_stmt fault None h s = (e, n, s1) -> s_dead s = false ->
   s_tx s = Some (mkTx t (local ++ base)) -> gen_ok (s_gen s) (local ++ base) ->
   Inv base true h s t local [OR (cls_oe e) n] h s1 t local.
 Proof.
-  intros h s e n s1 t local base H Htx Hg. unfold h_stmt, issue in H.
+  intros h s e n s1 t local base H Hdead Htx Hg. unfold h_stmt, issue in H. rewrite Hdead in H.
   destruct h as [e0|].
-  - inversion H; subst. unfold Inv. repeat (split; [first [assumption | reflexivity | lia | apply new_names_refl | apply flags_le_refl]|]).
+  - inversion H; subst. unfold Inv. repeat (split; [first [assumption | reflexivity | lia | apply new_names_refl | apply flags_le_refl | (unfold s_logd; cbn; congruence)]|]).
     exists []. split; [reflexivity|]. split; [reflexivity|]. fin.
   - rewrite Htx in H. destruct (fault (length (s_ops s))) eqn:Ef; inversion H; subst; unfold Inv;
-      cbn [set_tx s_tx s_gen s_db s_txlog s_ops s_fl cls_oe work sps].
-    + repeat (split; [first [assumption | reflexivity | lia | apply new_names_refl | apply flags_le_refl]|]).
+      cbn [set_tx s_tx s_gen s_db s_txlog s_ops s_fl s_dead s_logd cls_oe work sps].
+    + repeat (split; [first [assumption | reflexivity | lia | apply new_names_refl | apply flags_le_refl | (unfold s_logd; cbn; congruence)]|]).
       exists [(KStmt, true)]. split; [reflexivity|]. split; [reflexivity|]. fin.
-    + repeat (split; [first [assumption | reflexivity | lia | apply new_names_refl | apply flags_le_refl]|]).
+    + repeat (split; [first [assumption | reflexivity | lia | apply new_names_refl | apply flags_le_refl | (unfold s_logd; cbn; congruence)]|]).
       exists [(KStmt, false)]. split; [reflexivity|]. split; [reflexivity|]. fin.
 Qed.
 
 (* ---------------------------------------------------------------- SAVEPOINT / ROLLBACK TO *)
 (* outcome of h_sp when no dialector error was dropped *)
 Lemma h_sp_cases : forall save nm h s h1 s1 tx,
-  h_sp E C fault save nm h s = (h1, s1) -> s_tx s = Some tx -> x_drop (s_fl s1) = false ->
+  h_sp E C fault save nm h s = (h1, s1) -> s_dead s = false -> s_tx s = Some tx -> x_drop (s_fl s1) = false ->
   (* not issued: the handle already carries an error *)
   (exists e0, h = Some e0 /\ c_report C = true /\ h1 = Some (mkErr (e_code e0) true) /\ s1 = s)
   \/ (h = None /\
       let s' := mkSt (s_db s) (s_tx s) ((if save then KSave else KRbTo, fault (length (s_ops s))) :: s_ops s)
-                     (s_gen s) (s_txlog s) (s_fl s) in
+                     (s_gen s) (s_txlog s) (s_fl s) (s_dead s) in
       (* the injected fault hit it *)
       (fault (length (s_ops s)) = true /\ c_report C = true /\ h1 = Some fault_err /\ s1 = s')
       (* executed *)
@@ -178,12 +182,12 @@ Lemma h_sp_cases : forall save nm h s h1 s1 tx,
       \/ (fault (length (s_ops s)) = false /\ save = false /\ c_report C = true /\
           ref_rbto nm tx = None /\ h1 = Some (mkErr ENoSp false) /\ s1 = s')).
 Proof.
-  intros save nm h s h1 s1 tx H Htx Hd. unfold h_sp in H. rewrite savepoints in H. unfold exec_sp, issue in H.
+  intros save nm h s h1 s1 tx H Hdead Htx Hd. unfold h_sp in H. rewrite savepoints in H. unfold exec_sp, issue in H. rewrite Hdead in H.
   destruct h as [e0|].
   - destruct (c_report C) eqn:Er.
     + inversion H; subst. left. exists e0. repeat split; reflexivity.
     + inversion H; subst. cbn in Hd. discriminate.
-  - right. split; [reflexivity|]. rewrite Htx in H. cbv zeta. rewrite Htx.
+  - right. split; [reflexivity|]. rewrite Htx in H. cbv zeta. rewrite Htx, Hdead.
     destruct (fault (length (s_ops s))) eqn:Ef.
     + destruct (c_report C) eqn:Er; inversion H; subst; [|cbn in Hd; discriminate].
       left. repeat split; reflexivity.
@@ -199,35 +203,35 @@ Proof.
 Qed.
 
 Lemma save_step : forall n h s h1 s1 t local base,
-  h_sp E C fault true (NUser n) h s = (h1, s1) ->
+  h_sp E C fault true (NUser n) h s = (h1, s1) -> s_dead s = false ->
   s_tx s = Some (mkTx t (local ++ base)) -> gen_ok (s_gen s) (local ++ base) ->
   x_drop (s_fl s1) = false ->
   (h1 = None /\ Inv base true h s t local [OS n CNil] None s1 t ((NUser n, t) :: local))
   \/ (exists e, h1 = Some e /\ Inv base false h s t local [OS n (CErr e)] h1 s1 t local).
 Proof.
-  intros n h s h1 s1 t local base H Htx Hg Hd.
-  destruct (h_sp_cases _ _ _ _ _ _ _ H Htx Hd) as [[e0 [Eh [Er [E1 Es]]]] | [Eh [K | [K | [K | K]]]]]; cbv zeta in *.
+  intros n h s h1 s1 t local base H Hdead Htx Hg Hd.
+  destruct (h_sp_cases _ _ _ _ _ _ _ H Hdead Htx Hd) as [[e0 [Eh [Er [E1 Es]]]] | [Eh [K | [K | [K | K]]]]]; cbv zeta in *.
   - right. exists (mkErr (e_code e0) true). split; [exact E1|]. subst.
-    unfold Inv. repeat (split; [first [assumption | reflexivity | lia | apply new_names_refl | apply flags_le_refl]|]).
+    unfold Inv. repeat (split; [first [assumption | reflexivity | lia | apply new_names_refl | apply flags_le_refl | (unfold s_logd; cbn; congruence)]|]).
     exists []. split; [reflexivity|]. split; [reflexivity|]. fin.
   - destruct K as [Ef [Er [E1 Es]]]. right. exists fault_err. split; [exact E1|]. subst.
-    unfold Inv; cbn [s_tx s_gen s_db s_txlog s_ops s_fl].
-    repeat (split; [first [assumption | reflexivity | lia | apply new_names_refl | apply flags_le_refl]|]).
+    unfold Inv; cbn [s_tx s_gen s_db s_txlog s_ops s_fl s_dead s_logd].
+    repeat (split; [first [assumption | reflexivity | lia | apply new_names_refl | apply flags_le_refl | (unfold s_logd; cbn; congruence)]|]).
     exists [(KSave, fault (length (s_ops s)))]. rewrite Ef. split; [reflexivity|]. split; [reflexivity|]. fin.
   - destruct K as [Ef [_ [E1 Es]]]. left. split; [exact E1|]. subst.
-    unfold Inv; cbn [set_tx s_tx s_gen s_db s_txlog s_ops s_fl ref_save work sps].
+    unfold Inv; cbn [set_tx s_tx s_gen s_db s_txlog s_ops s_fl s_dead s_logd ref_save work sps].
     split; [reflexivity|]. split; [reflexivity|].
     split. { intros k t0 [Hin|Hin]; [discriminate | eapply Hg; exact Hin]. }
     split; [lia|].
     split. { intros nm t0 [Hin|Hin]; [inversion Hin; subst; right; right; exists n; reflexivity | left; exact Hin]. }
-    repeat (split; [first [assumption | reflexivity | apply flags_le_refl]|]).
+    repeat (split; [first [assumption | reflexivity | apply flags_le_refl | (unfold s_logd; cbn; congruence)]|]).
     exists [(KSave, fault (length (s_ops s)))]. rewrite Ef. split; [reflexivity|]. split; [reflexivity|]. fin.
   - destruct K as [_ [K _]]; discriminate.
   - destruct K as [_ [K _]]; discriminate.
 Qed.
 
 Lemma rbto_step : forall n h s h1 s1 t local base avail,
-  h_sp E C fault false (NUser n) h s = (h1, s1) ->
+  h_sp E C fault false (NUser n) h s = (h1, s1) -> s_dead s = false ->
   s_tx s = Some (mkTx t (local ++ base)) -> gen_ok (s_gen s) (local ++ base) ->
   Sub avail (unames local) -> In n avail ->
   x_drop (s_fl s1) = false ->
@@ -235,21 +239,21 @@ Lemma rbto_step : forall n h s h1 s1 t local base avail,
       Inv base true h s t local [ORb n CNil] None s1 snap local2 /\ Sub (cutz n avail) (unames local2))
   \/ (exists e, h1 = Some e /\ Inv base false h s t local [ORb n (CErr e)] h1 s1 t local).
 Proof.
-  intros n h s h1 s1 t local base avail H Htx Hg HS HI Hd.
+  intros n h s h1 s1 t local base avail H Hdead Htx Hg HS HI Hd.
   destruct (cut_local' local avail n base HS HI) as [snap [local2 [pre [Hc [HS2 Hpre]]]]].
-  destruct (h_sp_cases _ _ _ _ _ _ _ H Htx Hd) as [[e0 [Eh [Er [E1 Es]]]] | [Eh [K | [K | [K | K]]]]]; cbv zeta in *.
+  destruct (h_sp_cases _ _ _ _ _ _ _ H Hdead Htx Hd) as [[e0 [Eh [Er [E1 Es]]]] | [Eh [K | [K | [K | K]]]]]; cbv zeta in *.
   - right. exists (mkErr (e_code e0) true). split; [exact E1|]. subst h h1 s1.
-    unfold Inv. repeat (split; [first [assumption | reflexivity | lia | apply new_names_refl | apply flags_le_refl]|]).
+    unfold Inv. repeat (split; [first [assumption | reflexivity | lia | apply new_names_refl | apply flags_le_refl | (unfold s_logd; cbn; congruence)]|]).
     exists []. split; [reflexivity|]. split; [reflexivity|]. fin.
   - destruct K as [Ef [Er [E1 Es]]]. right. exists fault_err. split; [exact E1|]. subst h h1 s1.
-    unfold Inv; cbn [s_tx s_gen s_db s_txlog s_ops s_fl].
-    repeat (split; [first [assumption | reflexivity | lia | apply new_names_refl | apply flags_le_refl]|]).
+    unfold Inv; cbn [s_tx s_gen s_db s_txlog s_ops s_fl s_dead s_logd].
+    repeat (split; [first [assumption | reflexivity | lia | apply new_names_refl | apply flags_le_refl | (unfold s_logd; cbn; congruence)]|]).
     exists [(KRbTo, fault (length (s_ops s)))]. rewrite Ef. split; [reflexivity|]. split; [reflexivity|]. fin.
   - destruct K as [_ [K _]]; discriminate.
   - destruct K as [Ef [_ [tx' [Erb [E1 Es]]]]]. left. split; [exact E1|].
     unfold ref_rbto in Erb; cbn [sps] in Erb. rewrite Hc in Erb. inversion Erb; subst tx'.
     exists snap, local2. split; [|exact HS2]. subst h h1 s1.
-    unfold Inv; cbn [set_tx s_tx s_gen s_db s_txlog s_ops s_fl].
+    unfold Inv; cbn [set_tx s_tx s_gen s_db s_txlog s_ops s_fl s_dead s_logd].
     split; [reflexivity|].
     split. { cbn [spec_list fold_left spec_obs fst snd].
              pose proof (cut_fu n (local ++ base)) as Hcf. rewrite Hc in Hcf. rewrite Hcf. reflexivity. }
@@ -257,7 +261,7 @@ Proof.
              apply in_or_app; right; exact Hx. }
     split; [lia|].
     split. { intros nm t0 Hin. left. rewrite Hpre. apply in_or_app; right; exact Hin. }
-    repeat (split; [first [assumption | reflexivity | apply flags_le_refl]|]).
+    repeat (split; [first [assumption | reflexivity | apply flags_le_refl | (unfold s_logd; cbn; congruence)]|]).
     exists [(KRbTo, fault (length (s_ops s)))]. rewrite Ef. split; [reflexivity|]. split; [reflexivity|]. fin.
   - destruct K as [_ [_ [_ [Erb _]]]]. unfold ref_rbto in Erb; cbn [sps] in Erb. rewrite Hc in Erb. discriminate.
 Qed.
